@@ -57,6 +57,12 @@ Monotone == [][ /\ Len(s.ev) <= Len(s'.ev)
 \* determinism of the machine: the run of the recorded program reproduces the state
 Replayable == Run(prog) = s
 
+\* the other direction of the oracle binding: one-step extensions the specification REJECTS as machine errors
+\* are emitted too, so that the harness can check that the reference unpickler raises on them (the spec must not
+\* silently under-approximate the machine)
+EmitErr == (s.st = "run" /\ Len(prog) < MaxLen) =>
+              \A op \in Alphabet : LET t == Eff(op, s) IN
+                  (t.st = "err" /\ t.why = "vm") => PrintT(<<"ERRPROG", ToJson(Append(prog, op))>>)
 OpsOf(p)  == {p[i].o : i \in DOMAIN p}
 ModsOf(p) == {p[i].m : i \in {j \in DOMAIN p : p[j].o \in {"GLOBAL", "INST"}}}
 Emit == (s.st = "stop" /\ Require \subseteq OpsOf(prog) /\ RequireMods \subseteq ModsOf(prog))
